@@ -28,6 +28,15 @@ def key_of(v):
     return [type(v).__name__, str(dataclasses.astuple(v))]
 
 
+def build(d):
+    """values.build, plus NodeIds constructed the other documented ways (identifier type given as its symbol or its number)"""
+    if d.get("t") == "NodeId" and d.get("ctor"):
+        import opcua_tools.ua_data_types as U
+        ty = d["v"][1] if d["ctor"] == "symbol" else {"i": 0, "s": 1, "g": 2, "b": 3}[d["v"][1]]
+        return U.UANodeId(d["v"][0], ty, d["v"][2])
+    return values.build(d)
+
+
 def pool(rng, n):
     descs = [
         {"t": "Int32", "v": 1}, {"t": "Int32", "v": None}, {"t": "Int32", "v": 10}, {"t": "Int32", "v": 9}, {"t": "Int32", "v": -1},
@@ -37,7 +46,8 @@ def pool(rng, n):
         {"t": "LocalizedText", "text": "a", "locale": None}, {"t": "LocalizedText", "text": None, "locale": "en"},
         {"t": "Enumeration", "v": 1, "string": "On", "name": "E"}, {"t": "Enumeration", "v": 1, "string": "On", "name": "F"},
         {"t": "ListOf", "typename": "Int32", "items": []}, {"t": "ListOf", "typename": "Int32", "items": [{"t": "Int32", "v": 1}]},
-        {"t": "NodeId", "v": [0, "i", "5"]}, {"t": "NodeId", "v": [0, "i", 5]}, {"t": "NodeId", "v": [1, "s", "5"]}, {"t": "EURange", "low": "0.0", "high": "1.0"},
+        {"t": "NodeId", "v": [0, "i", "5"]}, {"t": "NodeId", "v": [0, "i", 5]}, {"t": "NodeId", "v": [1, "s", "5"]},
+        {"t": "NodeId", "v": [0, "i", "5"], "ctor": "symbol"}, {"t": "NodeId", "v": [0, "i", "5"], "ctor": "int"}, {"t": "NodeId", "v": [1, "s", "5"], "ctor": "int"}, {"t": "EURange", "low": "0.0", "high": "1.0"},
         {"t": "QualifiedName", "ns": 1, "name": "q"}, {"t": "Variant", "v": {"t": "Int32", "v": 3}},
         # points in time with and without a zone, and with an offset
         {"t": "DateTime", "v": "2021-03-01T06:00:00.000000", "tz": "utc"}, {"t": "DateTime", "v": "2021-03-01T14:30:00.000000", "tz": "naive"},
@@ -66,7 +76,7 @@ def has_na_field(v):
 
 def order_cases(run, descs):
     rng = run.rng
-    objs = [values.build(d) for d in descs]
+    objs = [build(d) for d in descs]
     keys = [key_of(o) for o in objs]
     pairs = [(i, j) for i in range(len(objs)) for j in range(len(objs))]
     if run.tier == "quick" and len(pairs) > 3600:
@@ -130,7 +140,7 @@ def cell_key(x):
 def sort_cases(run, n):
     rng = run.rng
     descs = pool(rng, 40)
-    objs = [values.build(d) for d in descs]
+    objs = [build(d) for d in descs]
     frames = []
     for _ in range(n):
         ncol = rng.randint(1, 3)
